@@ -686,6 +686,9 @@ func newBusHarness(prog *busProgram) *busHarness {
 	return h
 }
 
+// the controller gives up after this many resumptions
+const busStepCap = 3000
+
 // body id and value threshold of the panic handler's body (Bus/BusModel.v: panic_body, panic_retry_below)
 const panicBody, panicRetryBelow = 90, 50
 
@@ -791,7 +794,7 @@ func runControlled(prog *busProgram, pick func([]who) who) (T, T, []string) {
 			h.runActs(th)
 		}()
 	}
-	h.ctl.run(pick, 3000)
+	h.ctl.run(pick, busStepCap)
 	tags := []string{}
 	if h.ctl.stuck {
 		tags = append(tags, "controller-stuck")
@@ -834,7 +837,11 @@ func runControlled(prog *busProgram, pick func([]who) who) (T, T, []string) {
 			storeT = append(storeT, Tup(Nat(r[0]), Nat(r[1])))
 		}
 	}
-	obs := C("Build_bobs", L(traces...), L(counts...), L(storeT...), L(unfinished...), Nat(h.closed))
+	cut := h.ctl.steps >= busStepCap
+	if cut {
+		tags = append(tags, "cut-at-step-cap")
+	}
+	obs := C("Build_bobs", L(traces...), L(counts...), L(storeT...), L(unfinished...), Nat(h.closed), B(cut))
 	joined := strings.Join(tags, ",")
 	_ = joined
 	return prog.input(h.ctl.sched), obs, tags
